@@ -141,53 +141,6 @@ def parseVal : Nat → List String → List ((Term × Term × Term × Term) × V
     | _, _, _, _ => none
   | _, _, _ => none
 
-/-- `validate <opts…> FOCUS <terms> SHAPES <terms> SG <graph> DG <graph> RX <n> …` -/
-def opValidate (toks : List String) : String :=
-  let (o, rest) := parseOpts toks
-  match rest with
-  | "FOCUS" :: rest =>
-    match parseTermList rest with
-    | some (focus, "SHAPES" :: rest) =>
-      match parseTermList rest with
-      | some (useShapes, "SG" :: rest) =>
-        match parseGraph rest with
-        | some (sg, "DG" :: rest) =>
-          match parseGraph rest with
-          | some (dg, "RX" :: n :: rest) =>
-            match parseRx (n.toNat?.getD 0) rest [] with
-            | some (tbl, rest) =>
-              let (spq, spt, vals) : List ((Term × Term) × List Sol) × List (Term × SparqlTemplate) ×
-                  List ((Term × Term × Term × Term) × ValidatorAnswer) :=
-                match rest with
-                | "SPQ" :: n :: rest1 =>
-                  (match parseSpq (n.toNat?.getD 0) rest1 [] with
-                    | some (q, "SPT" :: m :: rest2) =>
-                      (match parseSpt (m.toNat?.getD 0) rest2 [] with
-                        | some (t, "VAL" :: k :: rest3) =>
-                          (match parseVal (k.toNat?.getD 0) rest3 [] with
-                            | some (vs, _) => (q, t, vs)
-                            | none => (q, t, []))
-                        | some (t, _) => (q, t, [])
-                        | none => (q, [], []))
-                    | some (q, _) => (q, [], [])
-                    | none => ([], [], []))
-                | _ => ([], [], [])
-              let vaf := fun (v sh f x : Term) => (vals.find? (fun e => e.1 = (v, sh, f, x))).map (·.2)
-              let sqf := fun (c f : Term) => (spq.find? (fun e => e.1 = (c, f))).map (·.2)
-              let sqi := fun (c : Term) => (spt.find? (fun e => e.1 = c)).map (·.2)
-              let sg' := sg ++ systemTriples.filter (· ∉ sg)
-              let out := runValidate o sg' dg (rxOfTable tbl) focus useShapes sqf sqi vaf
-              match out with
-              | .error e => "err " ++ failStr e
-              | .ok (conf, rs) => "ok " ++ (if conf then "1" else "0") ++ " " ++ toString rs.length ++
-                  String.join (rs.map fun r => " " ++ resultStr r)
-            | none => "bad-rx"
-          | _ => "bad-dg"
-        | _ => "bad-sg"
-      | _ => "bad-shapes"
-    | _ => "bad-focus"
-  | _ => "bad-args"
-
 /-- a pattern term: `?name` or a term token -/
 def parsePTerm (tok : String) : Option PTerm :=
   if tok.startsWith "?" then some (.var (unescape (tok.drop 1).toString)) else (parseTerm tok).map .const
@@ -207,14 +160,39 @@ def parsePatList : List String → Option (List TPat × List String)
     | none => none
   | [] => none
 
-/-- `<k> (usesThis head body notExists)*` -/
+def parsePTerms : Nat → List String → List PTerm → Option (List PTerm × List String)
+  | 0, rest, acc => some (acc.reverse, rest)
+  | n+1, a :: rest, acc => match parsePTerm a with
+    | some t => parsePTerms n rest (t :: acc)
+    | none => none
+  | _, _, _ => none
+
+/-- `(var fn nargs args…)*` -/
+def parseBindCalls : Nat → List String → List (String × Term × List PTerm) → Option (List (String × Term × List PTerm) × List String)
+  | 0, rest, acc => some (acc.reverse, rest)
+  | n+1, v :: f :: k :: rest, acc =>
+    match parseTerm f, k.toNat? with
+    | some fnode, some kk => match parsePTerms kk rest [] with
+      | some (args, rest') => parseBindCalls n rest' ((unescape v, fnode, args) :: acc)
+      | none => none
+    | _, _ => none
+  | _, _, _ => none
+
+/-- `<k> (usesThis head body notExists [BINDS …])*` -/
 def parseConstructs : Nat → List String → List Construct → Option (List Construct × List String)
   | 0, rest, acc => some (acc.reverse, rest)
   | n+1, ut :: rest, acc =>
     match parsePatList rest with
     | some (head, rest1) => match parsePatList rest1 with
       | some (body, rest2) => match parsePatList rest2 with
-        | some (ne, rest3) => parseConstructs n rest3 (⟨head, body, ne, ut = "1"⟩ :: acc)
+        | some (ne, rest3) =>
+          -- optional `BINDS k (var fn nargs args…)*`
+          (match rest3 with
+            | "BINDS" :: k :: rest4 =>
+              (match parseBindCalls (k.toNat?.getD 0) rest4 [] with
+                | some (bs, rest5) => parseConstructs n rest5 (⟨head, body, ne, ut = "1", bs⟩ :: acc)
+                | none => none)
+            | _ => parseConstructs n rest3 (⟨head, body, ne, ut = "1", []⟩ :: acc))
         | none => none
       | none => none
     | none => none
@@ -230,6 +208,108 @@ def parseCon : Nat → List String → List (Term × List Construct) → Option 
       | none => none
     | _, _ => none
   | _, _, _ => none
+
+
+/-- `ADVT n (targetNode nsols sols…)*` -/
+def parseAdvT : Nat → List String → List (Term × List Sol) → Option (List (Term × List Sol) × List String)
+  | 0, rest, acc => some (acc, rest)
+  | n+1, t :: k :: rest, acc =>
+    match parseTerm t, k.toNat? with
+    | some tn, some kk => match parseSols kk rest [] with
+      | some (sols, rest') => parseAdvT n rest' ((tn, sols) :: acc)
+      | none => none
+    | _, _ => none
+  | _, _, _ => none
+
+/-- `(name term|-)*` -/
+def parseNamedArgs : Nat → List String → List (String × Option Term) → Option (List (String × Option Term) × List String)
+  | 0, rest, acc => some (acc.reverse, rest)
+  | n+1, nm :: a :: rest, acc =>
+    if a = "-" then parseNamedArgs n rest ((unescape nm, none) :: acc) else
+    match parseTerm a with
+    | some t => parseNamedArgs n rest ((unescape nm, some t) :: acc)
+    | none => none
+  | _, _, _ => none
+
+/-- `ADVF n (fn nargs (name arg)… result|-)*` -/
+def parseAdvF : Nat → List String → List ((Term × List (String × Option Term)) × Option Term) →
+    Option (List ((Term × List (String × Option Term)) × Option Term) × List String)
+  | 0, rest, acc => some (acc, rest)
+  | n+1, f :: k :: rest, acc =>
+    match parseTerm f, k.toNat? with
+    | some fnode, some kk => match parseNamedArgs kk rest [] with
+      | some (args, r :: rest') =>
+        if r = "-" then parseAdvF n rest' (((fnode, args), none) :: acc) else
+        (match parseTerm r with
+          | some rt => parseAdvF n rest' (((fnode, args), some rt) :: acc)
+          | none => none)
+      | _ => none
+    | _, _ => none
+  | _, _, _ => none
+
+structure Sections where
+  spq : List ((Term × Term) × List Sol) := []
+  spt : List (Term × SparqlTemplate) := []
+  vals : List ((Term × Term × Term × Term) × ValidatorAnswer) := []
+  con : List (Term × List Construct) := []
+  advT : List (Term × List Sol) := []
+  advF : List ((Term × List (String × Option Term)) × Option Term) := []
+  bad : Bool := false
+
+/-- the optional table sections after `RX …`, in any order -/
+def parseSections : Nat → List String → Sections → Sections
+  | 0, _, acc => acc
+  | _, [], acc => acc
+  | fuel+1, tag :: n :: rest, acc =>
+    let k := n.toNat?.getD 0
+    if tag = "SPQ" then (match parseSpq k rest [] with | some (x, r) => parseSections fuel r { acc with spq := x } | none => { acc with bad := true })
+    else if tag = "SPT" then (match parseSpt k rest [] with | some (x, r) => parseSections fuel r { acc with spt := x } | none => { acc with bad := true })
+    else if tag = "VAL" then (match parseVal k rest [] with | some (x, r) => parseSections fuel r { acc with vals := x } | none => { acc with bad := true })
+    else if tag = "CON" then (match parseCon k rest [] with | some (x, r) => parseSections fuel r { acc with con := x } | none => { acc with bad := true })
+    else if tag = "ADVT" then (match parseAdvT k rest [] with | some (x, r) => parseSections fuel r { acc with advT := x } | none => { acc with bad := true })
+    else if tag = "ADVF" then (match parseAdvF k rest [] with | some (x, r) => parseSections fuel r { acc with advF := x } | none => { acc with bad := true })
+    else { acc with bad := true }
+  | _, _, acc => { acc with bad := true }
+
+def Sections.adv (s : Sections) : AdvTables :=
+  { targets := fun t => (s.advT.find? (fun e => e.1 = t)).map (·.2),
+    fn := fun f args => (s.advF.find? (fun e => e.1 = (f, args))).map (·.2) }
+
+/-- `validate <opts…> FOCUS <terms> SHAPES <terms> SG <graph> DG <graph> RX <n> …` -/
+def opValidate (toks : List String) : String :=
+  let (o, rest) := parseOpts toks
+  match rest with
+  | "FOCUS" :: rest =>
+    match parseTermList rest with
+    | some (focus, "SHAPES" :: rest) =>
+      match parseTermList rest with
+      | some (useShapes, "SG" :: rest) =>
+        match parseGraph rest with
+        | some (sg, "DG" :: rest) =>
+          match parseGraph rest with
+          | some (dg, "RX" :: n :: rest) =>
+            match parseRx (n.toNat?.getD 0) rest [] with
+            | some (tbl, rest) =>
+              let sec := parseSections 8 rest {}
+              if sec.bad then "bad-sections" else
+              let spq := sec.spq
+              let spt := sec.spt
+              let vals := sec.vals
+              let vaf := fun (v sh f x : Term) => (vals.find? (fun e => e.1 = (v, sh, f, x))).map (·.2)
+              let sqf := fun (c f : Term) => (spq.find? (fun e => e.1 = (c, f))).map (·.2)
+              let sqi := fun (c : Term) => (spt.find? (fun e => e.1 = c)).map (·.2)
+              let sg' := sg ++ systemTriples.filter (· ∉ sg)
+              let out := runValidate o sg' dg (rxOfTable tbl) focus useShapes sqf sqi vaf sec.adv
+              match out with
+              | .error e => "err " ++ failStr e
+              | .ok (conf, rs) => "ok " ++ (if conf then "1" else "0") ++ " " ++ toString rs.length ++
+                  String.join (rs.map fun r => " " ++ resultStr r)
+            | none => "bad-rx"
+          | _ => "bad-dg"
+        | _ => "bad-sg"
+      | _ => "bad-shapes"
+    | _ => "bad-focus"
+  | _ => "bad-args"
 
 def tripleStr (t : Triple) : String := termStr t.s ++ " " ++ termStr t.p ++ " " ++ termStr t.o
 
@@ -248,17 +328,18 @@ def opRules' (iterate thenValidate : Bool) (toks : List String) : String :=
           match parseGraph rest with
           | some (dg, "RX" :: n :: rest) =>
             match parseRx (n.toNat?.getD 0) rest [] with
-            | some (tbl, "CON" :: k :: rest) =>
-              match parseCon (k.toNat?.getD 0) rest [] with
-              | some (con, _) =>
+            | some (tbl, rest) =>
+              let sec := parseSections 8 rest {}
+              match (if sec.bad then none else some sec.con) with
+              | some con =>
                 let conf := fun (r : Term) => ((con.find? (fun e => e.1 = r)).map (·.2)).getD []
                 let sg' := sg ++ systemTriples.filter (· ∉ sg)
-                match runRules o iterate sg' (dedup dg) (rxOfTable tbl) focus useShapes conf with
+                match runRules o iterate sg' (dedup dg) (rxOfTable tbl) focus useShapes conf sec.adv with
                 | .error e => "err " ++ failStr e
                 | .ok g =>
                   let gs := "ok " ++ toString g.length ++ String.join (g.map fun t => " " ++ tripleStr t)
                   if !thenValidate then gs else
-                  match runValidate o sg' g (rxOfTable tbl) focus useShapes with
+                  match runValidate o sg' g (rxOfTable tbl) focus useShapes (adv := sec.adv) with
                   | .error e => gs ++ " VAL err " ++ failStr e
                   | .ok (conf, rs) => gs ++ " VAL ok " ++ (if conf then "1" else "0") ++ " " ++ toString rs.length ++
                       String.join (rs.map fun r => " " ++ resultStr r)
